@@ -168,6 +168,9 @@ def inline_call(caller, callee, call_id, seq):
     void = ret_t.get("ct") in (None, "void")
     retname = "%s.$ret" % tag
     ret_assign = {}
+    for n in nodes[off:]:
+        if n["k"] == "ReturnStmt" and n.get("inlined_from") == hname:
+            n["inlined_return"] = True      # `return;` of a void helper too: not an exit of the caller
     if not void:
         for n in list(nodes[off:]):
             if n["k"] == "ReturnStmt" and n.get("inlined_from") == hname and n.get("ch"):
